@@ -60,7 +60,8 @@ CLAIMED = {
              "permutation of the declared ones plus completion productions of EAMBIENTE/TERMOSOLAR only); the completed "
              "amount of a system is its use where it declares no production and max(0, use - declared) otherwise, step by "
              "step (C05_completion_value); it depends only on that system's components (C05_no_pooling) and is empty for "
-             "systems without use; the final sort is a stable permutation ordered by id. Correspondence: model vs "
+             "systems without use; the final sort is a stable permutation ordered by id; completing twice adds nothing "
+             "(C05_completion_twice_changes_nothing: the completion part of idempotence). Correspondence: model vs "
              "implementation on un-normalised component sets (serde JSON), multiset equality per system plus order of "
              "non-auxiliary components; the completion rule, 'nothing dropped' and idempotence (normalize twice) are "
              "recomputed on implementation outputs.",
